@@ -45,6 +45,9 @@ type Bucket struct {
 
 type Op struct {
 	Op string `json:"op"`
+	// "grpc": create / write / query / destroy / list go through the gRPC front end (frontend.GRPCService) with the
+	// request and the response passed through the protobuf wire format; default: the msgpack-RPC DataService
+	Front string `json:"front,omitempty"`
 	// start
 	Root     string `json:"root,omitempty"`
 	BgSync   bool   `json:"bgsync,omitempty"`
@@ -262,6 +265,11 @@ func (c *Ctx) Exec(o *Op) (obs Obs) {
 	}()
 	if f, ok := Extra[o.Op]; ok {
 		return f(c, o)
+	}
+	if o.Front == "grpc" {
+		if ob, handled := c.grpcExec(o); handled {
+			return ob
+		}
 	}
 	switch o.Op {
 	case "start":
